@@ -576,6 +576,65 @@ func storeOnlyInGetter(dir string) error {
 	return nil
 }
 
+
+// hostsShareByAddress: every simpleHost literal of the package (non-test files) must take its word from
+// GetHealthFlagPointer(E) with E the very expression it stores as addressString: "same address" in the property is the
+// key of healthStore.
+func hostsShareByAddress(dir string) error {
+	ents, err := os.ReadDir(filepath.Join(repo, dir))
+	if err != nil {
+		return err
+	}
+	n := 0
+	var bad error
+	for _, e := range ents {
+		nm := e.Name()
+		if e.IsDir() || !strings.HasSuffix(nm, ".go") || strings.HasSuffix(nm, "_test.go") {
+			continue
+		}
+		f, err := parse(dir + "/" + nm)
+		if err != nil {
+			return err
+		}
+		ast.Inspect(f, func(nd ast.Node) bool {
+			cl, ok := nd.(*ast.CompositeLit)
+			if !ok || cl.Type == nil || exprKey(cl.Type) != "simpleHost" {
+				return true
+			}
+			n++
+			addr, word := "", ""
+			for _, el := range cl.Elts {
+				kv, ok := el.(*ast.KeyValueExpr)
+				if !ok {
+					bad = fmt.Errorf("%s: positional simpleHost literal", nm)
+					return true
+				}
+				switch exprKey(kv.Key) {
+				case "addressString":
+					addr = exprKey(kv.Value)
+				case "healthFlags":
+					if c, ok := kv.Value.(*ast.CallExpr); ok && exprKey(c.Fun) == "GetHealthFlagPointer" && len(c.Args) == 1 {
+						word = exprKey(c.Args[0])
+					} else {
+						word = "?"
+					}
+				}
+			}
+			if addr == "" || word != addr || strings.HasPrefix(addr, "?") {
+				bad = fmt.Errorf("%s: a simpleHost literal does not take healthFlags from GetHealthFlagPointer(<its addressString>) (addressString: %q, word of: %q)", nm, addr, word)
+			}
+			return true
+		})
+	}
+	if bad != nil {
+		return bad
+	}
+	if n == 0 {
+		return fmt.Errorf("no simpleHost literal found")
+	}
+	return nil
+}
+
 func genHealthFlags() (string, error) {
 	const src = "pkg/upstream/cluster/health.go"
 	const hostSrc = "pkg/upstream/cluster/host.go"
@@ -656,6 +715,9 @@ func genHealthFlags() (string, error) {
 		return "", err
 	}
 	if err := storeOnlyInGetter("pkg/upstream/cluster"); err != nil {
+		return "", err
+	}
+	if err := hostsShareByAddress("pkg/upstream/cluster"); err != nil {
 		return "", err
 	}
 	s := header("HealthFlags", src+" (SetHealthFlag, ClearHealthFlag, GetHealthFlagPointer)", hostSrc+" (Health, ContainHealthFlag)")
